@@ -17,6 +17,13 @@ Expressions: int constants, names, attributes (through the ATTR table), + - * //
   expressions, int/len/max/min/sum/any/all/zip/list(set(..)), dict.get, tuples,
   t[0]/t[1], l[i], [c] * n, list comprehensions, calls of already translated
   functions.
+Extensions (used by gen_pyfuncs_time.py / _wsize.py / _index.py; inert for the reader driver):
+  `cx.np` (harness/gen/np_sem.py) gives NumPy-typed operands (uint64 / int64 / datetime64 /
+  timedelta64) their checked or wrapping meaning operator by operator, enum-typed string
+  parameters with module-level dict literals as match tables, statically decided tests
+  (isinstance on a typed parameter, `k in TABLE`), `try: x = TABLE[k] except KeyError` on a
+  total table, constant `a ** b`, module-level constants (cx.globals), bytes constants,
+  non-empty list literals, `l.append(x)` / `l.extend(l2)`, len of bytes.
 Control: `for` becomes a top-level structural Fixpoint over the list, its state
   the variables assigned in the body that exist before the loop; an `if` whose
   two branches both fall through becomes a monadic join over the assigned
@@ -84,6 +91,20 @@ def coqty(t):
         return "(" + " * ".join(coqty(x) for x in t[1:]) + ")"
     if k == "rec":
         return t[1]
+    if k in ("np", "dt", "td"):          # NumPy integers / datetime64 / timedelta64: the int64 (uint64) count
+        return "Z"
+    if k == "f64i":                      # an integral float64 or nan
+        return "(option Z)"
+    if k == "enum":
+        return t[1]
+    if k == "opaque":
+        return "unit"
+    if k == "npelem":                    # an element of a NumPy integer array (its dtype is carried by the type)
+        return "Z"
+    if k == "natw":                      # a dtype width in bytes
+        return "nat"
+    if k == "pystr":                     # a Python str, represented by its UTF-8 bytes
+        return "bytes"
     raise Unsupported("no Coq type for %r" % (t,))
 
 
@@ -110,9 +131,14 @@ def join_ty(a, b):
     raise Unsupported("cannot join types %r and %r" % (a, b))
 
 
+EXTRA_COERCIONS = {}      # (from type, to type) -> Gallina template, set by a driver (e.g. a typed value used as its bytes)
+
+
 def coerce(term, frm, to):
     if frm == to:
         return term
+    if (frm, to) in EXTRA_COERCIONS:
+        return EXTRA_COERCIONS[(frm, to)] % term
     if frm == ("list", None) and to[0] == "list":
         return term
     if to[0] == "opt":
@@ -167,6 +193,8 @@ class Cx:
         self.n_loop = 0
         self.fname = "f"
         self.final = True
+        self.np = None              # np_sem.NpSem instance (NumPy-typed operands, enum tables) or None
+        self.globals = {}           # module-level constant name -> (term, type)
 
     def snapshot(self):
         return (len(self.defs), self.n_tmp, self.n_loop)
@@ -293,11 +321,15 @@ def ex(e, env, h, cx):
             return ("true" if e.value else "false"), B
         if type(e.value) is int:
             return ("%d" % e.value if e.value >= 0 else "(%d)" % e.value), Z
+        if type(e.value) is bytes:
+            return '(hex "%s"%%string)' % e.value.hex(), BYTES
         fail(e, "constant")
     k = key_of(e)
     if k is not None and k in env:
         return env[k]
     if isinstance(e, ast.Name):
+        if e.id in cx.globals:
+            return cx.globals[e.id]
         fail(e, "unknown variable")
     if isinstance(e, ast.Attribute):
         # two-level chain through the table first (obj.data_type.size)
@@ -334,11 +366,26 @@ def ex(e, env, h, cx):
             c, cty = ex(e.left.elts[0], env, h, cx)
             n = as_int(e.right, env, h, cx)
             return "(List.repeat %s (Z.to_nat %s))" % (c, n), LIST(cty)
-        if type(e.op) not in BINOP:
+        if isinstance(e.op, ast.Pow):
+            # constant power of non-negative integer constants only
+            if isinstance(e.left, ast.Constant) and isinstance(e.right, ast.Constant) \
+                    and type(e.left.value) is int and type(e.right.value) is int \
+                    and e.left.value >= 0 and e.right.value >= 0:
+                return "(%d ^ %d)" % (e.left.value, e.right.value), Z
+            fail(e, "power (only constant ** constant, both >= 0)")
+        if type(e.op) not in BINOP and not (cx.np is not None and isinstance(e.op, ast.Div)):
             fail(e, "binary operator")
-        a = as_int(e.left, env, h, cx)
-        b = as_int(e.right, env, h, cx)
-        return BINOP[type(e.op)] % (a, b), Z
+        lt, lty = ex(e.left, env, h, cx)
+        lt, lty = need(lt, lty, "int", "EType", h, e.left)
+        rt, rty = ex(e.right, env, h, cx)
+        rt, rty = need(rt, rty, "int", "EType", h, e.right)
+        if lty == Z and rty == Z:
+            if type(e.op) not in BINOP:
+                fail(e, "binary operator on Python ints")
+            return BINOP[type(e.op)] % (lt, rt), Z
+        if cx.np is not None:
+            return cx.np.binop(e, lt, lty, rt, rty, h, cx)
+        fail(e.left if lty != Z else e.right, "integer expected, found %r" % ((lty if lty != Z else rty),))
     if isinstance(e, ast.Compare):
         nt = none_test(e)
         if nt is not None:
@@ -352,6 +399,13 @@ def ex(e, env, h, cx):
                 fail(e, "None test on a value that can never be None (%r)" % (ty,))
             r = "(is_none %s)" % t
             return ("(negb %s)" % r if neg else r), B
+        if cx.np is not None:
+            st = cx.np.static_cond(e, env, cx)
+            if st is not None:
+                return ("true" if st else "false"), B
+            r = cx.np.compare(e, env, h, cx)
+            if r is not None:
+                return r
         parts = []
         left = e.left
         lt, lty = ex(left, env, h, cx)
@@ -427,6 +481,16 @@ def ex(e, env, h, cx):
         return "(" + ", ".join(p[0] for p in parts) + ")", TUP(*[p[1] for p in parts])
     if isinstance(e, ast.List) and not e.elts:
         return "[]", LIST(None)
+    if isinstance(e, ast.List):
+        if cx.np is not None:
+            r = cx.np.list_literal(e, env, h, cx)
+            if r is not None:
+                return r
+        parts = [ex(x, env, h, cx) for x in e.elts]
+        ty = parts[0][1]
+        for p in parts[1:]:
+            ty = join_ty(ty, p[1])
+        return "[" + "; ".join(coerce(p[0], p[1], ty) for p in parts) + "]", LIST(ty)
     if isinstance(e, ast.Dict) and not e.keys:
         return "[]", DICT
     if isinstance(e, ast.ListComp):
@@ -438,6 +502,10 @@ def ex(e, env, h, cx):
                 and (e.value.id, e.slice.value) in cx.consts:
             v = cx.consts[(e.value.id, e.slice.value)]
             return "%d" % v, Z
+        if cx.np is not None:
+            r = cx.np.subscript(e, env, h, cx)
+            if r is not None:
+                return r
         bt, bty = ex(e.value, env, h, cx)
         bt, bty = need(bt, bty, "sequence", "EType", h, e)
         if bty[0] == "tup":
@@ -464,12 +532,16 @@ def call(e, env, h, cx):
     if e.keywords:
         fail(e, "keyword arguments")
     name = f.id if isinstance(f, ast.Name) else None
+    if cx.np is not None:
+        r = cx.np.call(e, env, h, cx)
+        if r is not None:
+            return r
     if name == "int" and len(e.args) == 1:
         return as_int(e.args[0], env, h, cx), Z
     if name == "len" and len(e.args) == 1:
         t, ty = ex(e.args[0], env, h, cx)
         t, ty = need(t, ty, "sized", "EType", h, e)
-        if ty[0] != "list":
+        if ty[0] != "list" and ty != BYTES:
             fail(e, "len of %r" % (ty,))
         return "(Z.of_nat (List.length %s))" % t, Z
     if name in ("max", "min") and len(e.args) == 2:
@@ -596,6 +668,11 @@ def assigned_keys(stmts):
                 walk(s.orelse)
             elif isinstance(s, ast.For):
                 walk(s.body)
+            elif isinstance(s, ast.Try):
+                walk(s.body)
+            elif isinstance(s, ast.Expr) and isinstance(s.value, ast.Call) and isinstance(s.value.func, ast.Attribute) \
+                    and s.value.func.attr in ("append", "extend"):
+                add(key_of(s.value.func.value))
     walk(stmts)
     return out
 
@@ -654,6 +731,10 @@ def block(stmts, env, K, sc, cx):
     s, rest = stmts[0], stmts[1:]
     if is_skip(s):
         return block(rest, env, K, sc, cx)
+    if cx.np is not None:
+        r = cx.np.statement(s, rest, env, K, sc, cx)
+        if r is not None:
+            return r
     if isinstance(s, ast.Raise):
         exc = s.exc
         name = exc.func.id if isinstance(exc, ast.Call) and isinstance(exc.func, ast.Name) else \
@@ -679,6 +760,12 @@ def block(stmts, env, K, sc, cx):
         return if_stmt(s, rest, env, K, sc, cx)
     if isinstance(s, ast.For):
         return for_stmt(s, rest, env, K, sc, cx)
+    if isinstance(s, ast.Try) and cx.np is not None:
+        body = cx.np.try_total(s, env, cx)        # the body when no handler can ever be entered, else fails
+        return block(body + rest, env, K, sc, cx)
+    if isinstance(s, ast.Expr) and isinstance(s.value, ast.Call) and isinstance(s.value.func, ast.Attribute) \
+            and s.value.func.attr in ("append", "extend") and len(s.value.args) == 1 and not s.value.keywords:
+        return list_grow(s, rest, env, K, sc, cx)
     fail(s, "unsupported statement")
 
 
@@ -726,7 +813,7 @@ def assign(s, rest, env, K, sc, cx):
     if k is None:
         fail(s, "assignment target")
     n = cname(k)       # (a write to a memo cache attribute is visible to the rest of this function only)
-    if ty == LIST(None):
+    if ty == LIST(None) and cx.np is None:
         fail(s, "empty list literal of unknown element type")
     env2[k] = (n, ty)
     if ty == NONE:
@@ -735,6 +822,36 @@ def assign(s, rest, env, K, sc, cx):
         h.pre[-1] = (n, h.pre[-1][1])
         return wrap(h.pre, block(rest, env2, K, sc, cx))
     return wrap(h.pre, "let %s := %s in\n" % (n, t)) + block(rest, env2, K, sc, cx)
+
+
+def list_grow(s, rest, env, K, sc, cx):
+    """l.append(x) / l.extend(l2) on a local list: l := l ++ [x] / l ++ l2"""
+    c = s.value
+    k = key_of(c.func.value)
+    if k is None or k not in env or env[k][1][0] != "list":
+        fail(s, "append/extend on something that is not a local list")
+    d, dty = env[k]
+    h = Hoist()
+    t, ty = ex(c.args[0], env, h, cx)
+    if c.func.attr == "append":
+        if dty[1] is not None and (ty, dty[1]) in EXTRA_COERCIONS:
+            ety = dty[1]
+        else:
+            ety = ty if dty[1] is None else join_ty(dty[1], ty)
+        if dty[1] is not None and ety != dty[1]:
+            fail(s, "append of %r to %r" % (ty, dty))
+        add = "[%s]" % coerce(t, ty, ety)
+    else:
+        if ty[0] != "list":
+            fail(s, "extend with a non-list (%r)" % (ty,))
+        ety = ty[1] if dty[1] is None else dty[1]
+        if ty[1] is not None and ty[1] != ety:
+            fail(s, "extend of %r with %r" % (dty, ty))
+        add = t
+    n = cname(k)
+    env2 = dict(env)
+    env2[k] = (n, LIST(ety))
+    return wrap(h.pre, "let %s := (%s ++ %s) in\n" % (n, d, add)) + block(rest, env2, K, sc, cx)
 
 
 def branch_pair(s, env, h, cx):
@@ -764,6 +881,10 @@ def branch_pair(s, env, h, cx):
 
 def if_stmt(s, rest, env, K, sc, cx):
     h = Hoist()
+    if cx.np is not None:
+        st = cx.np.static_cond(s.test, env, cx)
+        if st is not None:          # decided by the declared types / table keys: only the live branch exists
+            return block((s.body if st else s.orelse) + rest, env, K, sc, cx)
     emit, env_t, env_e = branch_pair(s, env, h, cx)
     if isinstance(emit, tuple):      # statically decided (cold memo cache)
         taken = s.body if emit[1] else s.orelse
